@@ -82,6 +82,11 @@ type Case struct {
 	Paragraph     bool    `json:"wrap_paragraph"` // true: WrapParagraph(Widths[0]); false: Prepare + WrapNextLine(Widths[i])
 	Widths        []int   `json:"widths"`         // width of the i-th call; the last one repeats
 	Iter          string  `json:"iterator"`       // "slice" (NewSliceIterator), "own", "owncopy"
+	// Prev, when set, is a paragraph wrapped on the SAME LineWrapper before this one (through
+	// Prepare/WrapNextLine and, if its Paragraph flag is set, WrapParagraph): the wrapper is
+	// documented as reusable, so what it did before must not show in this case's lines. Only the
+	// lines of this case are judged.
+	Prev *Case `json:"prev,omitempty"`
 	// informational (filled when a failure is written): the materialised input runs
 	Shaped []RunDump `json:"shaped_runs,omitempty"`
 }
